@@ -76,7 +76,10 @@ def gen_state(r):
     for _ in range(n):
         m = r.u01()
         if m < 0.12:
-            e, d = quiet(acc.remaining, r.randint(1, 5))
+            try:
+                e, d = quiet(acc.remaining, r.randint(1, 5))
+            except Exception:  # noqa  (a broken remaining() is reported by check_state, not here)
+                continue
             e, d = float(e), float(d)
             if r.chance(0.5):
                 d = 0.0
@@ -111,7 +114,11 @@ def check_state(state, k, extra=None):
     ce, cd, slack, spent = state
     acc = make(ce, cd, slack, spent)
     out = []
-    rem = quiet(acc.remaining, k)
+    try:
+        rem = quiet(acc.remaining, k)
+    except Exception as ex:  # noqa
+        return [("C18:remaining-raises", f"ceiling=({ce!r},{cd!r}) slack={slack!r} {len(spent)} spends: remaining({k}) raised "
+                                         f"{type(ex).__name__}: {str(ex)[:100]}")], {"remaining": None}
     er, dr = float(rem[0]), float(rem[1])
     info = {"remaining": (er, dr)}
     here = f"ceiling=({ce!r},{cd!r}) slack={slack!r} {len(spent)} spends k={k}: remaining=({er!r},{dr!r})"
@@ -179,7 +186,11 @@ def check_state(state, k, extra=None):
             quiet(acc.spend, e, d)
         except ValueError:
             return out, info
-        rem2 = quiet(acc.remaining, k)
+        try:
+            rem2 = quiet(acc.remaining, k)
+        except Exception as ex:  # noqa
+            out.append(("C18:remaining-raises", f"{here}; after spend({e!r},{d!r}) remaining({k}) raised {type(ex).__name__}"))
+            return out, info
         e2, d2 = float(rem2[0]), float(rem2[1])
         if not (e2 <= er * (1 + 1e-9)):
             out.append(("C18:grows:eps", f"{here}; after spend({e!r},{d!r}) remaining epsilon grew to {e2!r}"))
@@ -219,9 +230,12 @@ def check(ctx):
     lines, spans, impl = [], [], []
     for state, k in cases:
         ce, cd, slack, spent = state
-        rem = quiet(make(ce, cd, slack, spent).remaining, k)
-        rem = (float(rem[0]), float(rem[1]))
-        extra = gen_extra(rx, state, rem)
+        try:
+            rem = quiet(make(ce, cd, slack, spent).remaining, k)
+            rem = (float(rem[0]), float(rem[1]))
+        except Exception:  # noqa
+            rem = None
+        extra = gen_extra(rx, state, rem if rem else (0.0, 0.0))
         viol, info = check_state(state, k, extra)
         for sig, what in viol:
             ctx.violation(sig, what, {"state": [ce, cd, slack, spent], "k": k, "extra": list(extra)})
@@ -246,6 +260,9 @@ def check(ctx):
     for (state, k), rem, a in zip(cases, impl, spans):
         ce, cd, slack, spent = state
         w0, w = outs[a].split(), outs[a + 1].split()
+        if rem is None:
+            ctx.disagree("accountant.remaining", {"state": state, "k": k}, [outs[a], outs[a + 1]], "raised")
+            continue
         if w0[0] != "ok" or w[0] != "ok" or len(w) < 8:
             # the model refused a history the implementation accepted (or remaining failed): only legitimate within
             # rounding of the ceiling when exp/log are involved (slack > 0)
